@@ -3487,4 +3487,44 @@ example : Doc.NumberedFrom 1 ["1/JOHN DOE".toList, "2/1 HIGH ST".toList] :=
   ⟨⟨"JOHN DOE".toList, by decide, by decide, ⟨by decide, by decide, by decide⟩⟩,
    ⟨"1 HIGH ST".toList, by decide, by decide, ⟨by decide, by decide, by decide⟩⟩, trivial⟩
 
+
+/-- 25P `35x` + BIC on two lines (**partial**: the glued one-line spelling, where the BIC is cut from the end, is covered
+by `stable_25P` and the correspondence stream only): accepted exactly when the first line is 1 to 35 x-characters and the
+second a BIC -/
+theorem accepts_iff_25P_two_lines_partial (l0 l1 : Text) (h0 : ∀ c ∈ l0, c ≠ '\n') (h1 : ∀ c ∈ l1, c ≠ '\n') :
+    (F25P.parse (l0 ++ '\n' :: l1)).isOk = true ↔ (Doc.XText 35 l0 ∧ Doc.Bic l1) := by
+  unfold F25P.parse
+  rw [splitNl_append_nl l0 l1 h0, splitNl_no_nl l1 h1]
+  constructor
+  · intro h
+    split at h; · cases h
+    simp only at h
+    split at h; · cases h
+    rename_i hl
+    split at h; · cases h
+    rename_i hx
+    split at h; · cases h
+    rename_i hne
+    simp only [Bool.not_eq_true', Bool.not_eq_false] at hx
+    refine ⟨xtext_of_checks 35 l0 (by omega) (by intro e; subst e; simp at hne) hx, ?_⟩
+    cases hb : parseBic l1 with
+    | ok b => exact (accepts_iff_bic l1).mp (by rw [hb]; rfl)
+    | err => simp [hb] at h; cases h
+    | panic => simp [hb] at h; cases h
+  · rintro ⟨hx, hb⟩
+    obtain ⟨c1, c2, c3⟩ := checks_of_xtext 35 l0 hx
+    have hne : l0.isEmpty = false := by cases l0 <;> simp_all
+    have hl : ¬ blen l0 > 35 := by omega
+    have hasc : isAsciiT (l0 ++ '\n' :: l1) = true := by
+      unfold isAsciiT
+      have a0 := all_swiftX_ascii l0 c3
+      unfold isAsciiT at a0
+      simp only [List.all_append, List.all_cons, a0, Bool.true_and, Bool.and_eq_true]
+      refine ⟨by decide, List.all_eq_true.mpr fun c hc => upperOrDigit_ascii c (bic_chars l1 hb c hc)⟩
+    have hok := (accepts_iff_bic l1).mpr hb
+    simp only [hasc, Bool.not_true, Bool.false_eq_true, if_false, hl, c3, hne]
+    cases hpb : parseBic l1 with
+    | ok b => rfl
+    | err => rw [hpb] at hok; cases hok
+    | panic => rw [hpb] at hok; cases hok
 end SwiftMT.Props.C05
